@@ -1,4 +1,6 @@
 import DclabModel.Lemmas.Meta
+import DclabModel.Lemmas.MetaWriter
+import DclabModel.Model.MetaGuess
 import DclabModel.Gen.MetaTable
 import DclabModel.Model.MetaBaseline
 /-!
@@ -414,5 +416,182 @@ example : cleanText [32, 39, 97, 59, 98, 39, 32, 35, 120] = [97, 59, 98] := by d
 example : registry [.reg [118], .reg [119], .dereg [118]] = [[119]] := by decide
 example : lastWrite [([117], [107], sc (.int 1)), ([117], [107], sc (.int 2))] ([117], [107])
     = some (sc (.int 2)) := by decide
+
+/-! ## the writer's completion of metadata from the data (`rectify_metadata`) and the export route -/
+
+/-- **Frame**: the writer's completion touches no key outside the five data-describing ones. -/
+theorem rectify_frame (d : DataShape) (a : Attrs) {K : Str × Str} (h : K ∉ dataKeys) :
+    (rectify d a).get? K = a.get? K := by
+  obtain ⟨h1, h2, h3, h4, h5⟩ := not_dataKey h
+  unfold rectify
+  cases d.trace <;> cases d.image <;> simp only [] <;> split <;>
+    simp [attrs_get_put, h1, h2, h3, h4, h5]
+
+/-- **Acquisition metadata present in the source are carried over**: a channel count that is in
+the attributes survives the completion, whatever features the file holds. -/
+theorem rectify_channel_count_kept (d : DataShape) (a : Attrs) (v : PyVal)
+    (h : a.get? kChannels = some v) : (rectify d a).get? kChannels = some v := by
+  obtain ⟨_, _, _, _, _, _, _, h8, h9, _⟩ := dataKeys_distinct
+  unfold rectify
+  cases d.trace <;> cases d.image <;> simp only [] <;> split <;>
+    simp_all [attrs_get_put, Ne.symm h8, Ne.symm h9]
+
+/-- an absent channel count is added iff fluorescence maxima are present -/
+theorem rectify_channel_count_added (d : DataShape) (a : Attrs) (h : a.get? kChannels = none) :
+    (rectify d a).get? kChannels = if d.flCount = 0 then none else some (npI d.flCount) := by
+  obtain ⟨_, _, _, _, _, _, _, h8, h9, _⟩ := dataKeys_distinct
+  unfold rectify
+  cases d.trace <;> cases d.image <;> simp only [] <;> split <;>
+    simp_all [attrs_get_put, Ne.symm h8, Ne.symm h9]
+
+/-- the event count is the number of events in the file -/
+theorem rectify_event_count (d : DataShape) (a : Attrs) :
+    (rectify d a).get? kEventCount = some (npI d.events) := by
+  obtain ⟨h1, h2, h3, h4, _⟩ := dataKeys_distinct
+  unfold rectify
+  cases d.trace <;> cases d.image <;> simp only [] <;> split <;>
+    simp [attrs_get_put, Ne.symm h1, Ne.symm h2, Ne.symm h3, Ne.symm h4]
+
+/-- samples per event / roi size follow the data when the data are present, else are carried -/
+theorem rectify_samples (d : DataShape) (a : Attrs) :
+    (rectify d a).get? kSamples = match d.trace with
+      | some n => some (npI n)
+      | none => a.get? kSamples := by
+  obtain ⟨h1, _, _, _, h5, h6, h7, _⟩ := dataKeys_distinct
+  unfold rectify
+  cases d.trace <;> cases d.image <;> simp only [] <;> split <;>
+    simp [attrs_get_put, h1, Ne.symm h5, Ne.symm h6, Ne.symm h7]
+
+theorem rectify_roi (d : DataShape) (a : Attrs) :
+    ((rectify d a).get? kRoiX, (rectify d a).get? kRoiY) = match d.image with
+      | some (r, c) => (some (npI c), some (npI r))
+      | none => (a.get? kRoiX, a.get? kRoiY) := by
+  obtain ⟨_, _, h3, h4, _, h6, h7, h8, h9, h10⟩ := dataKeys_distinct
+  unfold rectify
+  cases d.trace <;> cases d.image <;> simp only [] <;> split <;>
+    simp [attrs_get_put, h3, h4, h6, h7, h8, h9, Ne.symm h10]
+
+/-- completing twice is completing once (observed through every key) -/
+theorem rectify_idem (d : DataShape) (a : Attrs) (K : Str × Str) :
+    (rectify d (rectify d a)).get? K = (rectify d a).get? K := by
+  by_cases hK : K ∈ dataKeys
+  · simp only [dataKeys, List.mem_cons, List.not_mem_nil, or_false] at hK
+    rcases hK with rfl | rfl | rfl | rfl | rfl
+    · simp [rectify_event_count]
+    · rw [rectify_samples d (rectify d a), rectify_samples d a]; cases d.trace <;> rfl
+    · cases hc : (rectify d a).get? kChannels with
+      | some v => exact rectify_channel_count_kept d _ v hc
+      | none =>
+        rw [rectify_channel_count_added d _ hc]
+        cases ha : a.get? kChannels with
+        | some v => rw [rectify_channel_count_kept d a v ha] at hc; cases hc
+        | none => rw [rectify_channel_count_added d a ha] at hc; exact hc
+    · have h1 := rectify_roi d (rectify d a); have h2 := rectify_roi d a
+      cases hd : d.image <;> simp_all [Prod.ext_iff]
+    · have h1 := rectify_roi d (rectify d a); have h2 := rectify_roi d a
+      cases hd : d.image <;> simp_all [Prod.ext_iff]
+  · rw [rectify_frame d _ hK]
+
+/-- **Export carries the metadata over**: after `export.hdf5` (source configuration through
+`store_metadata`, completion from the output's data) every key that does not describe the data
+holds the normalised, type-mapped value of the source — for ALL feature sets of the output. -/
+theorem export_carries (t : Tbl) (d : DataShape) (es : List (Str × Str × PyVal)) (a' : Attrs)
+    (h : t.exportMeta d es = .ok a') {K : Str × Str} (hK : K ∉ dataKeys) :
+    a'.get? K = match lastWrite es K with
+      | some v => (t.storedValue K.1 K.2 v).toOption
+      | none => none := by
+  unfold Tbl.exportMeta at h
+  obtain ⟨a, ha, rfl⟩ := map_eq_ok h
+  rw [rectify_frame d a hK, store_last_wins t es [] a ha K]
+  cases lastWrite es K <;> rfl
+
+/-- … and so does the channel count whenever the source has one -/
+theorem export_carries_channel_count (t : Tbl) (d : DataShape) (es : List (Str × Str × PyVal))
+    (a' : Attrs) (h : t.exportMeta d es = .ok a') (v : PyVal)
+    (hv : lastWrite es kChannels = some v) :
+    a'.get? kChannels = (t.storedValue kChannels.1 kChannels.2 v).toOption := by
+  unfold Tbl.exportMeta at h
+  obtain ⟨a, ha, rfl⟩ := map_eq_ok h
+  have hs := store_last_wins t es [] a ha kChannels
+  rw [hv] at hs
+  simp only [] at hs
+  cases hw : t.storedValue kChannels.1 kChannels.2 v with
+  | error e =>
+    -- a failing converter would have aborted `store_metadata`
+    exfalso
+    have : ∀ (es : List (Str × Str × PyVal)) (a0 a : Attrs), t.storeMeta a0 es = .ok a →
+        lastWrite es kChannels = some v → False := by
+      intro es
+      induction es with
+      | nil => intro _ _ _ h; simp [lastWrite] at h
+      | cons e r ih =>
+        obtain ⟨s, k, x⟩ := e
+        intro a0 a hst hl
+        simp only [Tbl.storeMeta] at hst
+        cases hsv : t.storedValue s k x with
+        | error e => simp [hsv] at hst
+        | ok w =>
+          simp only [hsv] at hst
+          simp only [lastWrite] at hl
+          cases hr : lastWrite r kChannels with
+          | some y => rw [hr] at hl; cases hl; exact ih _ _ hst hr
+          | none =>
+            rw [hr] at hl
+            by_cases hk : (s, k) = kChannels
+            · simp only [hk, if_true] at hl; cases hl
+              have : s = kChannels.1 ∧ k = kChannels.2 := by cases hk; exact ⟨rfl, rfl⟩
+              rw [this.1, this.2, hw] at hsv; cases hsv
+            · simp [hk] at hl
+    exact this es [] a ha hv
+  | ok w =>
+    simp only [hw, Except.toOption] at hs
+    simpa [Except.toOption] using rectify_channel_count_kept d a w hs
+
+/-- non-vacuity: a 3-channel measurement exported with two maxima keeps `channel count = 3`; a
+file without the attribute gets the number of maxima -/
+example : (rectify ⟨5, none, true, true, false, none⟩ [(kChannels, npI 3)]).get? kChannels
+    = some (npI 3) := by decide
+example : (rectify ⟨5, some 9, true, false, false, some (12, 16)⟩ []).get? kChannels
+    = some (npI 1) := by decide
+
+/-! ## type guessing (`keyval_str2typ`) and text rendering (`keyval_typ2str`) -/
+
+/-- **Text round trip of strings, exact guard**: a string value written by `tostring` (verbatim)
+and guessed back by `keyval_str2typ` is the same string **iff** `StrGuard` holds -/
+theorem guess_str_roundtrip (t : Tbl) (s : Str) (h : StrGuard t s = true) :
+    t.guess s = .ok (some (sc (.str s))) := by
+  simp only [StrGuard, Bool.and_eq_true, Bool.or_eq_true, ne_eq, beq_iff_eq,
+    Bool.not_eq_true', Option.isNone_iff_eq_none, decide_eq_true_eq] at h
+  obtain ⟨⟨⟨⟨⟨h1, h2⟩, h3⟩, h4⟩, h5⟩, h6⟩ := h
+  unfold Tbl.guess
+  simp only [h2, h1, if_false, h3, h4, h5, Bool.false_eq_true]
+  rcases h6 with h6 | h6
+  · simp [h6]
+  · simp only [h6]; split <;> rfl
+
+/-- booleans: `True`/`False` are read back as booleans -/
+theorem guess_bool_roundtrip (t : Tbl) (fmt : F → Str) (b : Bool) :
+    (typ2str fmt (sc (.bool b))).toOption.map t.guess = some (.ok (some (sc (.bool b)))) := by
+  cases b <;> rfl
+
+/-- the empty list is read back as the empty list -/
+theorem guess_empty_list (t : Tbl) (fmt : F → Str) :
+    (typ2str fmt (list [])).toOption.map t.guess = some (.ok (some (list []))) := by rfl
+
+/-- outside the guard (witnesses, replayed on the code by the harness): strings that look like
+numbers, booleans, lists, or carry quotes/blanks do not come back -/
+theorem guess_str_outside_guard :
+    tbl.guess [49, 101, 51] = .ok (some (sc (.float (.fin 1000)))) ∧          -- "1e3"
+    tbl.guess [49, 44, 53] = .ok (some (sc (.float (.fin (3 / 2))))) ∧        -- "1,5"
+    tbl.guess [89] = .ok (some (sc (.bool true))) ∧                             -- "Y"
+    tbl.guess [39, 97, 39] = .ok (some (sc (.str [97]))) ∧                      -- "'a'"
+    tbl.guess [91, 97, 93] = .error .value ∧                                    -- "[a]"
+    tbl.guess [110, 97, 110] = .ok (some (sc (.float .nan))) := by              -- "nan"
+  decide +kernel
+
+/-- a list of booleans is rendered as `[True]`, which `keyval_str2typ` refuses (ValueError) -/
+theorem guess_bool_list_breaks (fmt : F → Str) :
+    (typ2str fmt (list [.bool true])).toOption.map tbl.guess = some (.error .value) := by
+  rfl
 
 end DclabModel.C11
